@@ -43,6 +43,9 @@ type c16Case struct {
 }
 
 func poolType(name string) reflect.Type {
+	if name == "any" {
+		return reflect.TypeFor[any]()
+	}
 	for _, p := range tgen.Pool {
 		if p.Name == name {
 			return p.T
@@ -52,6 +55,9 @@ func poolType(name string) reflect.Type {
 }
 
 func overrideName(t reflect.Type) string {
+	if t == reflect.TypeFor[any]() {
+		return "any"
+	}
 	for _, p := range tgen.Pool {
 		if p.T == t {
 			return p.Name
@@ -583,6 +589,11 @@ func TestC16(t *testing.T) {
 			c.T.Walk(func(x *tgen.TD) {
 				if x.K == "pool" {
 					occurring = append(occurring, x.Pool)
+				}
+				if x.K == "iface" {
+					// the empty interface type can be overridden like any other type, wherever it
+					// occurs (field, element, map value)
+					occurring = append(occurring, "any", "any")
 				}
 			})
 			cands := append(occurring, "NInt", "Inner", "Base", "time.Time", "NStr")
